@@ -243,6 +243,60 @@ func vh_C11_Handlers() {
 	vfReach("end")
 }
 
+// handlers that are BUSY when the next piece of work arrives: the same MonadIO is subscribed a second time while the
+// first OnNext is still running on the subscribe handler (or while the first effect is still running on the observe
+// handler) - the second effect still runs on the observe handler's goroutine and the second OnNext on the subscribe
+// handler's, once each
+func vh_C11_BusyHandlers() {
+	h1, h2 := Handler.New(), Handler.New()
+	id1, id2 := -1, -1
+	h1.Post(func() { id1 = vfGoroutineID() })
+	h2.Post(func() { id2 = vfGoroutineID() })
+	vfQuiesce()
+	gate := make(chan struct{})
+	parkInEffect := vfChoose("first-parks-in", 2) == 1
+	var effectOn, nextOn []int
+	firstEffect, firstNext := true, true
+	m := MonadIONewGenerics(func() int {
+		effectOn = append(effectOn, vfGoroutineID())
+		if firstEffect {
+			firstEffect = false
+			if parkInEffect {
+				<-gate
+			}
+		}
+		return 1
+	}).ObserveOn(h1).SubscribeOn(h2)
+	sub := Subscription[int]{OnNext: func(v int) {
+		nextOn = append(nextOn, vfGoroutineID())
+		if firstNext {
+			firstNext = false
+			if !parkInEffect {
+				<-gate
+			}
+		}
+	}}
+	done := make(chan struct{})
+	go func() {
+		m.Subscribe(sub)
+		m.Subscribe(sub) // arrives while a handler is still busy with the first evaluation
+		close(done)
+	}()
+	vfQuiesce()
+	close(gate)
+	<-done
+	vfQuiesce()
+	vfAssert("effect-exactly-once", len(effectOn) == 2)
+	vfAssert("onnext-exactly-once", len(nextOn) == 2)
+	for _, g := range effectOn {
+		vfAssert("effect-on-observe-handler", g == id1)
+	}
+	for _, g := range nextOn {
+		vfAssert("onnext-on-subscribe-handler", g == id2)
+	}
+	vfReach("end")
+}
+
 // the util-instance constructor MonadIO.New(effect) is as lazy and as exactly-once as MonadIONewGenerics
 func vh_C11_UtilInstance() {
 	effects := 0
